@@ -503,6 +503,7 @@ type vC17Rig struct {
 	t0      time.Time
 	probe   *Cluster
 	cancels []context.CancelFunc
+	gaveUp  [vc17NPeers]bool
 }
 
 func (rg *vC17Rig) running(i int) bool {
@@ -593,8 +594,11 @@ func (rg *vC17Rig) settle() {
 			}
 		}
 		rg.cons.mu.Unlock()
-		if !in {
-			rg.waitDone(i, 6*time.Second)
+		if !in && !rg.gaveUp[i] {
+			// 4 ms ticks: 2 s is a margin of 500; a peer that did not stop in that time is not waited for again in this script
+			if !rg.waitDone(i, 2*time.Second) {
+				rg.gaveUp[i] = true
+			}
 		}
 	}
 }
@@ -766,6 +770,7 @@ func vC17RunFake(c *vC17Case) (obs *vC17Obs, term string, panicked interface{}) 
 		case "restart":
 			// a restart that cannot take place (still running, or the data folder is gone: such a peer has to join again) is reported as an error
 			if _, err := os.Stat(rg.cfgs[op.At].GetDataFolder()); err == nil && !rg.running(op.At) {
+				rg.gaveUp[op.At] = false
 				rg.start(op.At, op.Rdy)
 			} else {
 				operr = errors.New("vc17: restart skipped")
@@ -1180,6 +1185,10 @@ func TestVerifC17Cluster(t *testing.T) {
 		if pan != nil {
 			b, _ := json.Marshal(map[string]interface{}{"signature": "panic", "detail": fmt.Sprint(pan), "case": map[string]interface{}{"input": c}})
 			fmt.Printf("VERIF-DIRECT-VIOLATION %s\n", b)
+			continue
+		}
+		if obs == nil {
+			out.count("raft_entry_not_delivered_to_removed_peer")
 			continue
 		}
 		out.count("kind_" + c.Kind)
